@@ -15,6 +15,8 @@ import (
 // text starts with `|` continues the previous line:
 //
 //	//@ pred NAME(p1, p2) := body
+//	//@ opaque NAME(p1, p2) := body     (an uninterpreted predicate of its arguments and the heaps
+//	//                                   it reads, except in functions that say `reveal NAME`)
 //	//@ func (*Writer).WriteBits
 //	//@   mode bv|int
 //	//@   tags C18 C10
@@ -31,7 +33,16 @@ import (
 //	//@   axiom [label] expr
 //	//@   lemma [label] by induction VAR from LO :: expr
 //	//@   inline CALLEE | noinline CALLEE
+// ConstCheck is a pure data obligation on a declared constant: its value in the
+// source must equal the value the external specification gives.
+type ConstCheck struct {
+	Pkg, Name, Want string
+	Tags            []string
+	File            string
+}
+
 type ContractSet struct {
+	Consts    []ConstCheck
 	Preds     map[string]predDef
 	Contracts []*Contract
 	ByKey     map[string]*Contract // pkgPath + "." + fn
@@ -83,6 +94,7 @@ func (cs *ContractSet) parseFile(pkgPath, file string, f *ast.File) {
 		}
 	}
 	var cur *Contract
+	var constTags []string
 	errf := func(format string, a ...any) {
 		cs.Errors = append(cs.Errors, file+": "+fmt.Sprintf(format, a...))
 	}
@@ -93,6 +105,24 @@ func (cs *ContractSet) parseFile(pkgPath, file string, f *ast.File) {
 		if strings.HasSuffix(kw, "!") {
 			slow = true
 			kw = kw[:len(kw)-1]
+		}
+		switch kw {
+		case "consts":
+			constTags = strings.Fields(rest)
+			cur = nil
+			continue
+		case "const":
+			fs := strings.Fields(rest)
+			if len(fs) != 2 {
+				errf("bad const check: %s", ln)
+				continue
+			}
+			cs.Consts = append(cs.Consts, ConstCheck{Pkg: pkgPath, Name: fs[0], Want: fs[1], Tags: constTags, File: file})
+			continue
+		}
+		opaque := false
+		if kw == "opaque" {
+			kw, opaque = "pred", true
 		}
 		switch kw {
 		case "pred":
@@ -118,7 +148,7 @@ func (cs *ContractSet) parseFile(pkgPath, file string, f *ast.File) {
 			if _, dup := cs.Preds[name]; dup {
 				errf("duplicate pred %s", name)
 			}
-			cs.Preds[name] = predDef{params: ps, body: strings.TrimSpace(body)}
+			cs.Preds[name] = predDef{params: ps, body: strings.TrimSpace(body), opaque: opaque}
 		case "func":
 			cur = &Contract{Pkg: pkgPath, Fn: rest, Mode: "bv", CallAsserts: map[string][]Clause{}, Funs: map[string]string{}, Loops: map[int]LoopSpec{}, File: file}
 			key := pkgPath + "." + rest
@@ -185,6 +215,8 @@ func (cs *ContractSet) parseFile(pkgPath, file string, f *ast.File) {
 				cur.Callbacks[fs[0]] = fs[1]
 			case "except":
 				cur.Except = append(cur.Except, strings.Fields(rest)...)
+			case "reveal":
+				cur.Reveal = append(cur.Reveal, strings.Fields(rest)...)
 			case "inline":
 				cur.Inline = append(cur.Inline, strings.Fields(rest)...)
 			case "noinline":
